@@ -49,20 +49,36 @@ impl Digest for Tiny {
     fn output_bits(&self) -> usize { 16 }
     fn block_size(&self) -> usize { 4 }
 }
-// derive_key: every byte XORed with the mask, for every slice length up to the largest block size (144)
-// @harness props=C08,C09 kind=bounded bound=len<=144 tier=quick timeout=300 pairs=derive_key
+// derive_key: every byte of the slice XORed with the mask, nothing else written: every length <= 12 (symbolic), and the
+// largest block size in the crate (144) at full length
+// @harness props=C08,C09 kind=bounded bound=len<=12 tier=quick timeout=300 pairs=derive_key
 #[kani::proof]
-#[kani::unwind(146)]
+#[kani::unwind(15)]
 fn hmac_derive_key() {
-    let mut k: [u8; 144] = kani::any();
+    let mut k: [u8; 14] = kani::any();
     let k0 = k;
     let m: u8 = kani::any();
     let n: usize = kani::any();
-    kani::assume(n <= 144);
-    derive_key(&mut k[..n], m);
+    kani::assume(n <= 12);
+    derive_key(&mut k[1..1 + n], m);
+    let mut i = 0;
+    while i < 14 {
+        assert!(k[i] == if i >= 1 && i < 1 + n { k0[i] ^ m } else { k0[i] });
+        i += 1;
+    }
+    kani::cover!(true);
+}
+// @harness props=C08,C09 kind=bounded bound=len=144 tier=quick timeout=300 pairs=derive_key
+#[kani::proof]
+#[kani::unwind(146)]
+fn hmac_derive_key_144() {
+    let mut k: [u8; 144] = kani::any();
+    let k0 = k;
+    let m: u8 = kani::any();
+    derive_key(&mut k, m);
     let mut i = 0;
     while i < 144 {
-        assert!(k[i] == if i < n { k0[i] ^ m } else { k0[i] });
+        assert!(k[i] == k0[i] ^ m);
         i += 1;
     }
     kani::cover!(true);
